@@ -4,6 +4,7 @@ From Coq Require Import List NArith.
 From SudachiVerif Require Generated.TrieBits.
 From SudachiVerif Require Import Model.Trie Model.WordIdTable Model.LexSet.
 From SudachiVerif Require Import Proofs.TrieProofs Proofs.WordIdTableProofs Proofs.LexSetProofs.
+From SudachiVerif Require Model.Buffer Proofs.PipelineProofs Proofs.BuildLatticeProofs Proofs.BuildOptimal Proofs.LookupLattice.
 Import ListNotations.
 Open Scope N_scope.
 
@@ -135,3 +136,54 @@ Theorem C04_lookup_once_of_certificate : forall L rows fuel,
   forall dic text off l, dic < 16 -> bytes text -> lex_lookup L dic text off = Some l -> NoDup l.
 Proof. exact (fun L rows fuel => lex_lookup_nodup_of_cert L rows fuel C04_fact_layout). Qed.
 Print Assumptions C04_lookup_once_of_certificate.
+
+(* ---- lookup results as lattice nodes (ties C04 to C02's build_optimal) ---- *)
+Close Scope N_scope.
+Open Scope nat_scope.
+(* For EVERY array, text and offset an entry found at byte offset `off` ends strictly after `off` and inside the text (keys are
+   never empty: the iterator yields only after consuming a byte).  If moreover the array is certified and all its keys are
+   whole UTF-8 strings (`chars_ok`: every character = a lead byte followed by exactly width-1 continuation bytes), the
+   text is a byte string that is valid UTF-8 in the same sense and `off` is a character boundary, then `end` is a character
+   boundary of the text. *)
+Theorem C04_lookup_candidates_wf : forall a text off v e,
+  In (v, e) (traverse a text off) ->
+  (off < N.to_nat e <= length text) /\ (forall fuel ks, keys_of a fuel = Some ks -> (forall k v', In (k, v') ks -> chars_ok k) ->
+                   bytes text -> chars_ok text -> Buffer.is_boundary text off = true ->
+                   Buffer.is_boundary text (N.to_nat e) = true).
+Proof.
+  exact (fun a text off v e Hin =>
+           conj (LookupLattice.traverse_range a text off v e Hin)
+                (fun fuel ks Hk Hutf Hb Ht Hoff => LookupLattice.traverse_end_boundary a fuel ks text off v e Hk Hutf Hb Ht Hoff Hin)).
+Qed.
+Print Assumptions C04_lookup_candidates_wf.
+
+(* the per-dictionary certificate gives the key hypothesis: enumerated keys = CSV surfaces, which are Rust strs *)
+Theorem C04_cert_keys_utf8 : forall L rows fuel,
+  cert_lex L rows fuel = true -> (forall r, In r rows -> chars_ok (fst r)) -> LookupLattice.lex_keys_utf8 L.
+Proof. exact LookupLattice.cert_keys_utf8. Qed.
+Print Assumptions C04_cert_keys_utf8.
+
+(* the offset tables of InputBuffer are the ones C08 proves about *)
+Fact C04_fact_buffer_cfg : Buffer.cfg_ok Buffer.the_cfg = true.
+Proof. vm_compute. reflexivity. Qed.
+
+(* the nodes build_lattice makes from lookup results at character ch_off (char begin = ch_off, byte begin = mod_c2b[ch_off],
+   char end = ch_idx(end) = mod_b2c[end], can_bow filter, any word parameters) are well formed: begin = ch_off < end <= number
+   of characters -- for certified lexicons, every valid text and every character position *)
+Theorem C04_lookup_lattice_nodes_wf : forall lexs params bow t ch_off m,
+  (forall L, In L lexs -> LookupLattice.lex_keys_utf8 L) -> bytes t -> chars_ok t -> (ch_off < PipelineProofs.nchars t) ->
+  In m (LookupLattice.dict_cands Buffer.the_cfg lexs params bow t ch_off) ->
+  BuildLatticeProofs.node_wf (PipelineProofs.nchars t) ch_off m.
+Proof. exact (LookupLattice.dict_cands_wf Buffer.the_cfg C04_fact_buffer_cfg). Qed.
+Print Assumptions C04_lookup_lattice_nodes_wf.
+
+(* the dictionary half of `offered_wf`, the hypothesis of C02_build_optimal: with candidates = dictionary nodes ++ OOV nodes *)
+Theorem C04_offered_wf_from_lookup : forall lexs params bow t oov fallback,
+  (forall L, In L lexs -> LookupLattice.lex_keys_utf8 L) -> bytes t -> chars_ok t ->
+  (forall p m, In m (oov p) -> BuildLatticeProofs.node_wf (PipelineProofs.nchars t) p m) ->
+  (forall p f, fallback p = Some f -> BuildLatticeProofs.node_wf (PipelineProofs.nchars t) p f) ->
+  forall p m, (p < PipelineProofs.nchars t) ->
+    In m (BuildOptimal.offered (fun q => LookupLattice.dict_cands Buffer.the_cfg lexs params bow t q ++ oov q) fallback p) ->
+    BuildLatticeProofs.node_wf (PipelineProofs.nchars t) p m.
+Proof. exact (LookupLattice.offered_wf_from_lookup Buffer.the_cfg C04_fact_buffer_cfg). Qed.
+Print Assumptions C04_offered_wf_from_lookup.
